@@ -142,7 +142,12 @@ class UnifiedTypeService:
                 f"Unified type system must use X | None exclusively."
             )
 
-        # Quote forward references BEFORE adding | None so we get: "DataSource" | None not "DataSource | None"
+        # An optional forward reference must be quoted as a whole: "DataSource | None".
+        # ("DataSource" | None would be evaluated when the class body runs: str | None is a TypeError.)
+        if resolved.is_forward_ref and resolved.is_optional and not python_type.startswith('"'):
+            return f'"{python_type} | None"'
+
+        # Quote (non-optional) forward references
         if resolved.is_forward_ref and not python_type.startswith('"'):
             logger.debug(
                 f'Quoting forward ref: {python_type} -> "{python_type}" '
